@@ -24,6 +24,8 @@ def lemmas(tier):
             out.append(xh.Lemma("cn_%s" % c.id, [("k", "int")], ["return R.field_rejects_near(%r, k)" % c.id], pre=["0 <= k < %d" % n], meta=dict(meta, edit="closed enum value replaced by a near miss of a declared value", near=True)))
         elif c.kind == "enum_int" and c.direct and not c.detail["open"]:
             out.append(xh.Lemma("c_%s" % c.id, [("x", "int")], ["return R.conv_accepts(%r, x)[0] == False" % c.id], pre=["x not in %r" % (tuple(c.detail["values"]),)], meta=dict(meta, edit="closed enum value outside")))
+            # a fractional JSON number is outside every integer enumeration (5.5 is not SymbolKind 5)
+            out.append(xh.Lemma("ch_%s" % c.id, [("x", "int"), ("q", "int")], ["return R.conv_accepts(%r, x + (0.25, 0.5, 0.75)[q])[0] == False" % c.id], pre=["0 <= q < 3", "-(2**40) <= x <= 2**40"], meta=dict(meta, edit="closed enum value replaced by a fractional number", frac=True)))
             # JSON booleans: Python's False == 0 and True == 1, so only a boolean that equals no declared value is demanded to fail
             outside = [b for b in (False, True) if int(b) not in c.detail["values"]]
             if outside:
@@ -63,6 +65,8 @@ def check(tier):
                 continue
             c = fc[l.meta["case"]]
             v = r.args.get("x", r.args.get("s", r.args.get("f")))
+            if l.meta.get("frac"):
+                v = r.args["x"] + (0.25, 0.5, 0.75)[r.args["q"]]
             if l.meta.get("bools"):
                 v = l.meta["bools"][r.args["k"]]
             if l.meta.get("special"):
